@@ -133,7 +133,9 @@ type EnumConfig struct {
 	// runtime error such as out of memory, unrecoverable fault) is reported as a
 	// violation of that case instead of a harness error.
 	CrashIsViolation bool
-	Limit            int64 // evaluate only the first Limit cases (0 = all); sets Exhaustive=false when it cuts
+	// CrashKey names the finding class of a case that kills the evaluating process (default: the case index)
+	CrashKey func(idx int64) string
+	Limit    int64 // evaluate only the first Limit cases (0 = all); sets Exhaustive=false when it cuts
 }
 
 // EnumStats aggregates an enumeration.
@@ -230,21 +232,52 @@ func Enumerate(cfg EnumConfig) *EnumStats {
 				mu.Unlock()
 				return nil
 			}
-			var r enumResult
-			if err := w.call(jobs[i], &r); err != nil {
-				if cfg.CrashIsViolation {
-					if v := isolateCrash(jobs[i]); v != nil {
-						mu.Lock()
-						st.Violations = append(st.Violations, *v)
-						st.Exhaustive = false
-						mu.Unlock()
-						return errWorkerRestart
-					}
+			j := jobs[i]
+			for {
+				var r enumResult
+				err := w.call(j, &r)
+				if err == nil {
+					absorb(j, r)
+					return nil
 				}
-				return fmt.Errorf("enum job %d [%d,%d): %v", i, jobs[i].Lo, jobs[i].Hi, err)
+				if !cfg.CrashIsViolation {
+					return fmt.Errorf("enum job %d [%d,%d): %v", i, j.Lo, j.Hi, err)
+				}
+				// the worker died: find the case that kills it, report it, go on with the rest
+				v := isolateCrash(j)
+				if v == nil {
+					return fmt.Errorf("enum job %d [%d,%d): %v (not reproducible)", i, j.Lo, j.Hi, err)
+				}
+				c := int64(v.Choices[0])
+				if cfg.CrashKey != nil {
+					v.Key = cfg.CrashKey(c)
+				}
+				mu.Lock()
+				st.Violations = append(st.Violations, *v)
+				nv := len(st.Violations)
+				st.Cases++ // the killing case has its verdict
+				st.Evals++
+				mu.Unlock()
+				w.stop()
+				nw, serr := startWorker()
+				if serr != nil {
+					return serr
+				}
+				*w = *nw
+				if c > j.Lo {
+					sub := j
+					sub.Hi = c
+					var r2 enumResult
+					if err := w.call(sub, &r2); err != nil {
+						return fmt.Errorf("enum job [%d,%d) died again before the isolated case: %v", sub.Lo, sub.Hi, err)
+					}
+					absorb(sub, r2)
+				}
+				j.Lo = c + 1
+				if j.Lo >= j.Hi || (cfg.MaxViol > 0 && nv >= cfg.MaxViol*4) {
+					return nil
+				}
 			}
-			absorb(jobs[i], r)
-			return nil
 		})
 		if err != nil && err != errWorkerRestart {
 			st.Errors = append(st.Errors, "worker failure: "+err.Error())
